@@ -297,12 +297,19 @@ func c13ErrorTexts(b *core.B) {
 // c13NestedFailure: a partial that includes itself fails at the innermost level, inside a helper
 // block; the error (its line numbers included) is the same with the cache off, cold and warm.
 func c13NestedFailure(b *core.B) {
-	const node = "<%= cap() { %>\n<%= if (depth == 0) { %><%= boom() %><% } else { %>\n\n<%= partial(\"node\", {depth: depth - 1}) %><% } %>\n<% } %>"
+	c13NestedFailureOf(b, "<%= cap() { %>\n<%= if (depth == 0) { %><%= boom() %><% } else { %>\n\n<%= partial(\"node\", {depth: depth - 1}) %><% } %>\n<% } %>")
+	// the failing statement sits in a template function that the outermost run defined and the innermost run calls
+	c13NestedFailureOf(b, "<% if (depth == 2) { let f = fn() {\n\n return boom()\n} } %>\nx\n<%= if (depth == 0) { %>\n<%= f() %><% } else { %>\n\n<%= partial(\"node\", {depth: depth - 1}) %><% } %>\n")
+	// ... in a block that the outermost run stored and the innermost run replays
+	c13NestedFailureOf(b, "<% if (depth == 2) { contentFor(\"st\") { %>\n\n<%= boom() %><% } } %>\nx\n<%= if (depth == 0) { %>\n<%= contentOf(\"st\") %><% } else { %>\n\n<%= partial(\"node\", {depth: depth - 1}) %><% } %>\n")
+}
+
+func c13NestedFailureOf(b *core.B, node string) {
 	const input = `<%= partial("node", {depth: 2}) %>`
 	if !b.Begin("nested failure in a self-including partial: " + node) {
 		return
 	}
-	b.NonTrivialStr("nested-failure")
+	b.NonTrivialStr("nested-failure", node)
 	b.Count("self-including-partial-failing-at-the-innermost-level")
 	var outs []string
 	pan := core.Guard(func() {
